@@ -459,13 +459,15 @@ func handleZINTER(params internal.HandlerFuncParams) ([]byte, error) {
 
 	values := params.GetValues(params.Context, keys)
 	for i := 0; i < len(keys); i++ {
-		if !keyExists[keys[i]] {
-			// If any of the keys is non-existent, return an empty array as there's no intersect
-			return []byte("*0\r\n"), nil
-		}
-		set, ok := values[keys[i]].(*SortedSet)
-		if !ok {
-			return nil, fmt.Errorf("value at %s is not a sorted set", keys[i])
+		// A non-existent key is an empty sorted set: the intersection is empty,
+		// but the remaining keys must still hold sorted sets.
+		set := NewSortedSet([]MemberParam{})
+		if keyExists[keys[i]] {
+			var ok bool
+			set, ok = values[keys[i]].(*SortedSet)
+			if !ok {
+				return nil, fmt.Errorf("value at %s is not a sorted set", keys[i])
+			}
 		}
 		setParams = append(setParams, SortedSetParam{
 			Set:    set,
@@ -514,12 +516,15 @@ func handleZINTERSTORE(params internal.HandlerFuncParams) ([]byte, error) {
 
 	values := params.GetValues(params.Context, keys)
 	for i := 0; i < len(keys); i++ {
-		if !keyExists[keys[i]] {
-			return []byte(":0\r\n"), nil
-		}
-		set, ok := values[keys[i]].(*SortedSet)
-		if !ok {
-			return nil, fmt.Errorf("value at %s is not a sorted set", keys[i])
+		// A non-existent key is an empty sorted set: the (empty) intersection
+		// still replaces the destination.
+		set := NewSortedSet([]MemberParam{})
+		if keyExists[keys[i]] {
+			var ok bool
+			set, ok = values[keys[i]].(*SortedSet)
+			if !ok {
+				return nil, fmt.Errorf("value at %s is not a sorted set", keys[i])
+			}
 		}
 		setParams = append(setParams, SortedSetParam{
 			Set:    set,
